@@ -122,5 +122,105 @@ theorem evaluateObjective_accepted (maxfun nf nx want x : Nat) (v : Val) (s : St
   · simp [hk0, r4 hk0]
   · simp [hk0, (r5 (Nat.pos_of_ne_zero hk0)).1]
 
+/-! ### the block at x0 -/
+
+theorem fold_objs_x0 (maxfun want nf0 nx1 x : Nat) (v : Val) :
+    ∀ (m j : Nat) (s : St), s.maxfun = maxfun → s.phase = .x0 j want nf0 → 0 < j → s.nf = nf0 + j →
+      s.nx = nx1 → s.curX = x → j + m ≤ want → nf0 + j + m ≤ maxfun →
+      ∃ s', ((List.range m).map (fun i => objEv x v (nf0 + j + i + 1, nx1))).foldlM step s = .ok s' ∧
+        s'.maxfun = maxfun ∧ s'.phase = .x0 (j + m) want nf0 ∧ s'.nf = nf0 + j + m ∧ s'.nx = nx1 ∧ s'.curX = x ∧
+        s'.groups = s.groups := by
+  intro m
+  induction m with
+  | zero =>
+    intro j s hm hp _ hn hx hc _ _
+    exact ⟨s, by simp [pure, Except.pure], hm, by simpa using hp, by simpa using hn, hx, hc, rfl⟩
+  | succ m ih =>
+    intro j s hm hp hj hn hx hc hw hb
+    rw [List.range_succ_eq_map, List.map_cons, List.map_map, List.foldlM_cons]
+    have hlt' : nf0 + j < s.maxfun := by rw [hm]; omega
+    have hjw : j < want := by omega
+    have hj0 : j ≠ 0 := by omega
+    have hstep : step s (objEv x v (nf0 + j + 0 + 1, nx1)) =
+        .ok { s with nf := s.nf + 1, phase := .x0 (j + 1) want nf0,
+                     calls := (nf0 + j + 0 + 1, nx1, x) :: s.calls } := by
+      simp only [objEv, step, hp]
+      simp [hn, hlt', hjw, hx, hc, hj0]
+    simp only [hstep, bind, Except.bind]
+    obtain ⟨s', hs', r1, r2, r3, r4, r5, r6⟩ := ih (j + 1)
+      { s with nf := s.nf + 1, phase := .x0 (j + 1) want nf0, calls := (nf0 + j + 0 + 1, nx1, x) :: s.calls }
+      hm rfl (by omega) (by show s.nf + 1 = nf0 + (j + 1); omega) hx hc (by omega) (by omega)
+    refine ⟨s', ?_, r1, by rw [r2]; congr 1; omega, by rw [r3]; omega, r4, r5, r6⟩
+    rw [← hs']
+    congr 1
+    apply List.map_congr_left
+    intro i _
+    simp only [Function.comp, objEv]
+    congr 1 <;> omega
+
+/-- **refinement of the block at x0 into the acceptor**: from an idle acceptor state with counters `(nf, nx)`,
+    `nf < maxfun`, the events `rst …, ns want, obj…, ctrl …` built from the KERNEL's calls for `want ≥ 1` requested
+    samples are accepted, and afterwards the acceptor is idle with exactly the kernel's counters. -/
+theorem evaluateX0_accepted (maxfun nf nx want x nruns npt : Nat) (v : Val) (s : St)
+    (hm : s.maxfun = maxfun) (hp : s.phase = .idle) (hn : s.nf = nf) (hx : s.nx = nx)
+    (hb : nf < maxfun) (hw : 1 ≤ want) (lab ns' cap : Nat) (v0 thr : Val) :
+    let t := EvalLoop.evaluateX0 maxfun nf nx want
+    ∃ s', ([Ev.rst nruns nf nx false maxfun npt, Ev.ns (want : Int)] ++ t.calls.map (objEv x v) ++
+            [Ev.ctrl lab ns' v0 cap thr]).foldlM step s = .ok s' ∧
+      s'.phase = .idle ∧ s'.nf = t.nf ∧ s'.nx = t.nx ∧ s'.maxfun = maxfun := by
+  have hspec := EvalLoop.evaluateX0_spec maxfun nf nx want hw
+  simp only at hspec
+  obtain ⟨t1, t2, _, t4, _, _⟩ := hspec
+  simp only
+  rw [t4, t1, t2, List.map_map]
+  have hkw : min (want - 1) (maxfun - (nf + 1)) ≤ want - 1 := Nat.min_le_left _ _
+  have hkb : nf + 1 + min (want - 1) (maxfun - (nf + 1)) ≤ maxfun := by omega
+  generalize hk : min (want - 1) (maxfun - (nf + 1)) = k at hkw hkb ⊢
+  -- rst
+  have hrst : step s (.rst nruns nf nx false maxfun npt) = .ok { s with started := true, phase := .x0 0 0 s.nf } := by
+    simp only [step, hp]
+    simp [hn, hx, hm, hb]
+  -- ns
+  have hns : ∀ s0 : St, step s0 (.ns (want : Int)) = .ok { s0 with lastNs := want } := by
+    intro s0
+    simp only [step]
+    by_cases h1 : (want : Int) ≤ 1
+    · have : want = 1 := by omega
+      subst this; simp
+    · simp [h1]
+  simp only [List.cons_append, List.nil_append, List.foldlM_cons, hrst, hns, bind, Except.bind]
+  -- the first, unconditional call, then the loop's calls
+  rw [List.range_succ_eq_map, List.map_cons, List.map_map, List.cons_append, List.foldlM_cons]
+  have hfirst : step { s with started := true, phase := .x0 0 0 s.nf, lastNs := want }
+      ((objEv x v ∘ fun j => (nf + j + 1, nx + 1)) 0) =
+      .ok { s with started := true, lastNs := want, nf := s.nf + 1, nx := s.nx + 1, curX := x, phase := .x0 1 want s.nf,
+                   calls := (nf + 0 + 1, nx + 1, x) :: s.calls } := by
+    simp only [Function.comp, objEv, step]
+    simp [hn, hx, hm, hb]
+  simp only [hfirst, bind, Except.bind]
+  rw [List.foldlM_append]
+  obtain ⟨s1, hs1, r1, r2, r3, r4, _, _⟩ := fold_objs_x0 maxfun want nf (nx + 1) x v k 1
+    { s with started := true, lastNs := want, nf := s.nf + 1, nx := s.nx + 1, curX := x, phase := .x0 1 want s.nf,
+             calls := (nf + 0 + 1, nx + 1, x) :: s.calls }
+    hm (by show Phase.x0 1 want s.nf = Phase.x0 1 want nf; rw [hn]) (by omega) (by show s.nf + 1 = nf + 1; omega)
+    (by show s.nx + 1 = nx + 1; omega) rfl (by omega) (by omega)
+  have hmap : (List.range k).map ((objEv x v ∘ fun j => (nf + j + 1, nx + 1)) ∘ Nat.succ) =
+      (List.range k).map (fun i => objEv x v (nf + 1 + i + 1, nx + 1)) := by
+    apply List.map_congr_left
+    intro i _
+    simp only [Function.comp, objEv]
+    congr 1 <;> omega
+  rw [hmap, hs1]
+  simp only [bind, Except.bind, List.foldlM_cons, List.foldlM_nil]
+  have hctrl : step s1 (.ctrl lab ns' v0 cap thr) =
+      .ok { s1 with phase := .idle, groups := (want, 1 + k, s1.maxfun - nf) :: s1.groups } := by
+    simp only [step, r2]
+    have h1 : (1 + k = 0) = False := by simp
+    have h2 : 1 + k = min want (s1.maxfun - nf) := by rw [r1]; omega
+    simp [h2]
+    omega
+  rw [hctrl]
+  exact ⟨_, rfl, rfl, by simpa using (by omega : s1.nf = nf + 1 + k), by simpa using r4, by simpa using r1⟩
+
 end EvalLoopAcc
 end Dfols
